@@ -130,6 +130,10 @@ func c05Producers() []c05Producer {
 			out = append(out, c05Producer{"builtin", m, n})
 		}
 	}
+	// an object whose __iter__ itself raises: every consumer hands that exception on unchanged
+	for _, m := range []string{"KeyError", "ZeroDivisionError", "ValueError"} {
+		out = append(out, c05Producer{"iterraises", m, 0})
+	}
 	return out
 }
 
@@ -165,6 +169,9 @@ func (p c05Producer) def(idx int, strs bool) (string, string) {
 		if p.n == 0 {
 			sb.WriteString("    if False:\n        yield 0\n")
 		}
+		return sb.String(), name + "()"
+	case "iterraises":
+		fmt.Fprintf(&sb, "class %s:\n    def __iter__(self):\n        _log.append('iter')\n        raise %s\n", name, p.mode)
 		return sb.String(), name + "()"
 	case "genexp":
 		vals := make([]string, p.n+1)
@@ -425,6 +432,9 @@ func TestC05(t *testing.T) {
 		r.Infra("%v", err)
 	}
 	c05Matrix(r)
+	if r.Shard == 0 {
+		c05Extras(r)
+	}
 	r.SetExhaustive(true)
 	rapid.Check(t, func(rt *rapid.T) {
 		h := &c05Hist{g: &G{T: rt}, r: r, kinds: map[string]bool{}}
@@ -473,4 +483,44 @@ func TestC05(t *testing.T) {
 			}
 		}
 	})
+}
+
+// c05Extras: iterator objects around the generator core - what stays of them after partial consumption, end cases of
+// the consumers, and the value carried by StopIteration objects of every making
+func c05Extras(r *Run) {
+	pre := "_res = []\n" + strings.SplitN(c05Prelude, "def run2", 2)[0][len("_log = []\n_res = []\n"):]
+	var progs []string
+	add := func(body string) { progs = append(progs, pre+body) }
+	// consumers given no iterable at all
+	add("_res.append(guard(lambda: next(zip(), 'empty')))\n_res.append(guard(lambda: next(zip(*[]), 'empty')))\nn = 0\nfor t in zip(*[]):\n    n += 1\n    if n >= 3:\n        break\n_res.append(n)\n")
+	// iterator objects are their own iterators and keep their position: enumerate, zip, map, filter partly consumed by a for loop
+	for _, mk := range []string{"enumerate('abcd')", "enumerate('abcd', 10)", "zip('abcd', [1, 2, 3, 4])", "map(str, [1, 2, 3, 4])", "filter(None, [1, 0, 2, 3, 4])", "iter([1, 2, 3, 4])", "iter('abcd')", "iter((1, 2, 3, 4))", "iter(range(4))", "(x for x in 'abcd')"} {
+		add("e = " + mk + "\nfor x in e:\n    break\n_res.append(guard(lambda: iter(e) is e))\n_res.append(guard(lambda: next(e)))\n_res.append(guard(lambda: [p for p in e]))\n_res.append(guard(lambda: next(e, 'done')))\n_res.append(guard(lambda: list(zip(" + mk + ", " + mk + "))))\ne2 = " + mk + "\n_res.append(guard(lambda: list(zip(e2, e2))))\n")
+	}
+	// str.join reads the whole iterable before it looks at the items: the iterable's own exception wins, nothing is left over
+	for _, items := range []string{"'a', 1, 'c'", "'a', 'b', None", "1, 'b'", "'a', 'b'"} {
+		for _, tail := range []string{"raise ValueError('g')", "pass"} {
+			add("log = []\ndef g():\n    for x in (" + items + ",):\n        yield x\n        log.append(x)\n    " + tail + "\n_res.append(guard(lambda: ','.join(g())))\n_res.append(log)\nit = iter([" + items + ", 'z'])\n_res.append(guard(lambda: ','.join(it)))\n_res.append(list(it))\n")
+		}
+	}
+	// iter(callable, sentinel): the sentinel is compared with ==, and the iterator stays exhausted
+	for _, c := range []struct{ vals, sentinel string }{{"1, 2, 3, 4", "3"}, {"1, 2, 3, 4", "3.0"}, {"1, 2, True, 4", "1"}, {"[1], [], [2]", "[]"}, {"(1,), (), (2,)", "()"}, {"'a', 'b', 'c'", "'b'"}, {"1, None, 2", "None"}, {"1, 2", "9"}, {"{'k': 1}, {}, 5", "{}"}} {
+		add("def feeder(vals):\n    it = iter(vals)\n    return lambda: next(it)\nci = iter(feeder([" + c.vals + "]), " + c.sentinel + ")\n_res.append(guard(lambda: list(ci)))\n_res.append(guard(lambda: list(ci)))\n_res.append(guard(lambda: next(ci, 'done')))\n_res.append(guard(lambda: iter(ci) is ci))\n")
+	}
+	// the value yield from evaluates to is the value attribute of the StopIteration, however the object was made
+	for _, mk := range []string{"StopIteration('plain')", "StopIteration()", "StopIteration('first', 'second')", "StopIteration((1, 2))", "Done(404, 'payload')", "Assigned()"} {
+		add("class Done(StopIteration):\n    def __init__(self, code, result):\n        self.value = result\ndef Assigned():\n    e = StopIteration('first', 'second')\n    e.value = 'assigned'\n    return e\nclass It:\n    def __init__(self, exc):\n        self.exc = exc\n    def __iter__(self):\n        return self\n    def __next__(self):\n        raise self.exc\n" +
+			"def delegate(exc):\n    r = yield from It(exc)\n    yield r\ne = " + mk + "\n_res.append(guard(lambda: e.value))\n_res.append(guard(lambda: list(delegate(e))))\n")
+	}
+	for i, prog := range progs {
+		d, err := PyDiff(prog, PyDiffOpts{Vars: []string{"_res"}})
+		if err != nil {
+			r.Infra("%v", err)
+		}
+		r.Count(fmt.Sprintf("extras:%d:%s", i, prog), true)
+		r.Class("extras")
+		if d.Sig != "" {
+			r.Mismatch(&Case{Kind: "pydiff", Sig: fmt.Sprintf("extras:%s", d.Sig), Program: prog, Vars: []string{"_res"}, Expected: d.Expected, Actual: d.Actual, Detail: d.Detail})
+		}
+	}
 }
